@@ -201,15 +201,17 @@ ProcessStart ==
     /\ UNCHANGED <<now, up>>
 
 \* finish / reschedule of a task whose running entry has been removed under
-\* the scheduler's feet (only possible if somebody else uses one of the
-\* FinishOrReplace* modes on the task being processed): the queue reports an
-\* error and scheduler::run stops the daemon (scheduler.rs:87-99).
+\* the scheduler's feet (somebody else used one of the FinishOrReplace* modes
+\* on the task being processed, e.g. the post-save listener of a command on
+\* the API thread: mq.rs:594-617): the task has been replaced by the newly
+\* scheduled one, nothing is left to do (queue.rs finish_running_task /
+\* reschedule_running_task).  (Until fix 3ff3c77d the queue reported an error
+\* and scheduler::run stopped the daemon.)
 LostCurrent ==
     /\ up /\ cur # None
     /\ running[cur] = 0
-    /\ up' = FALSE
     /\ cur' = None
-    /\ UNCHANGED <<pending, running, now>>
+    /\ UNCHANGED <<pending, running, now, up>>
 
 Tick ==
     /\ now < MaxTs
